@@ -87,6 +87,7 @@ def multinomial_em_sparse(
         result = matrix.copy().astype(np.float32)
     else:
         result = matrix.tocsr().astype(np.float32)
+    result.eliminate_zeros()
     new_data, mix_weights = numba_multinomial_em_sparse(
         result.indptr,
         result.indices,
